@@ -113,7 +113,13 @@ static inline void atomic_b_store(atomic_b *a, _Bool v, int mo)
 /* ---- shared_ptr<size_t> / weak_ptr<size_t>: ASSUMED library contract ------------------------------ */
 static inline shared_ptr_size shared_ptr_size_default(void) { shared_ptr_size p; p.ptr = 0; p.gen = 0; p.val = 0; return p; }
 static inline weak_ptr_size weak_ptr_size_default(void) { weak_ptr_size w; w.gen = 0; w.bound = 0; return w; }
-static inline int64_t shared_ptr_size_use_count(const shared_ptr_size *p) { return p->ptr ? 1 : 0; }
+static inline int64_t shared_ptr_size_use_count(const shared_ptr_size *p)
+{
+  if(!p->ptr) return 0;
+  /* all owners of the control block: those held by the library plus a promoted observer reference, if any */
+  if(p->gen == ID.my_gen) return (int64_t)ID.my_owners + (ID.ext_owner ? 1 : 0);
+  return 1;
+}
 static inline size_t *shared_ptr_size_deref(shared_ptr_size *p)
 {
   __CPROVER_assert(p->ptr != 0, "[C05][C15][safety] dereference of an empty shared_ptr");
@@ -188,6 +194,20 @@ static inline _Bool weak_ptr_size_expired(const weak_ptr_size *w)
   if(w->gen == ID.my_gen) return !ID.my_gen_alive && !ID.ext_owner;
   return nondet_bool(); /* a generation of another thread: unknown here */
 }
+static inline shared_ptr_size weak_ptr_size_lock(const weak_ptr_size *w)
+{
+  shared_ptr_size p = shared_ptr_size_default();
+  if(w->bound && w->gen == ID.my_gen && ID.my_gen_alive && ID.my_owners < 7)
+  {
+    p.ptr = malloc(sizeof(size_t));
+    /* ASSUME[library]: allocation succeeds */
+    __CPROVER_assume(p.ptr != 0);
+    p.gen = w->gen; p.val = ID.my_id; *p.ptr = p.val;
+    ID.my_owners++;   /* a promoted reference held by the library itself is one more owner */
+  }
+  return p;
+}
+static inline _Bool shared_ptr_size_bool(const shared_ptr_size *p) { return p->ptr != 0; }
 static inline weak_ptr_size *weak_ptr_size_assign(weak_ptr_size *dst, weak_ptr_size src) { *dst = src; return dst; }
 static inline void weak_ptr_size_dtor(weak_ptr_size *w) { (void)w; }
 
